@@ -297,3 +297,10 @@ def same_outputs(ctx, fl, rnd, spec, engine, text):
             if not W.same(a, b):
                 ctx.violation("the imported engine computes different outputs although every parameter is representable at the configured decimals", {"fll": text[:2500], "rows": block, "variable": ov.name}, a, b)
                 return
+
+
+def passive(ctx, fl, probe):
+    """attach this property's always-on monitor to a foreign workload (the repository's test-suite, see vf/pytest_plugin.py)"""
+    mon = FllMonitor(ctx, fl)
+    mon.install(probe)
+    return None
